@@ -176,9 +176,38 @@ def grid : Op
       | .ok rows => some [.str "ok", .int rows.length, ofNats (rows.map List.length)]
   | _ => none
 
+def parsePairs (v : Val) : Option (List (String × String)) := do
+  let l ← v.list?
+  l.mapM (fun x => match x with
+    | .list [.str a, .str b] => some (a, b)
+    | _ => none)
+
+/-- `C09.mapsens names0 ren1 administered states consts inter ren2 outputs given`:
+    the name map after construction (`names0`), a renaming, optionally `set_administration`
+    (declaration of the new model given), another renaming; then the public names and the request of
+    `enable_sensitivities(True, given)` read through the map by position -/
+def mapSens : Op
+  | [n0v, r1v, .bool adm, sv, cv, iv, r2v, ov, gv] => do
+    let names0 ← n0v.strs?
+    let ren1 ← parsePairs r1v
+    let ren2 ← parsePairs r2v
+    let d ← parseDecl sv cv iv
+    let given ← Val.opt? Val.strs? gv
+    match ← withOutputs d ov with
+    | .error e => some [errVal (errName e)]
+    | .ok T =>
+      let m1 := renameMap (identityMap names0) ren1
+      let m2 := if adm then rebuildMap m1 T.parameterNames else m1
+      let m3 := renameMap m2 ren2
+      let pub := publicNames m3 T.parameterNames
+      match enableSensMap T m3 given with
+      | .error e => some [ofStrs pub, errVal (errName e)]
+      | .ok (o, l) => some [ofStrs pub, .str "ok", ofStrs o, ofStrs (l.map sensName)]
+  | _ => none
+
 def ops : List (String × Op) :=
   [("C09.tables", tables), ("C09.simulate", simulate), ("C09.sens", sens),
-   ("C09.reduced", reduced), ("C09.grid", grid), ("C09.reducedsens", reducedSens), ("C09.senshistory", sensHistory),
+   ("C09.reduced", reduced), ("C09.mapsens", mapSens), ("C09.grid", grid), ("C09.reducedsens", reducedSens), ("C09.senshistory", sensHistory),
    ("C09.redhistory", redHistory), ("C09.setoutputs", setOutputsOp)]
 
 end ChiDriver.C09
